@@ -96,6 +96,11 @@ def run_sem(pid, tier, seed, replay, gen_fn=None, extra_cov=None, t_start=None):
                 known_hits[k["id"]] = (k, known_hits[k["id"]][1] + 1)
                 continue
             violations.append((c, failed, rc))
+    pre = (extra_cov or {}).pop("_pre_violations", []) if extra_cov else []
+    for payload, text in pre[:20]:
+        path = common.write_replay(pid, payload)
+        log("VIOLATION property=%s replay=%s" % (pid, path))
+        log("  " + text)
     for kid, (k, n) in known_hits.items():
         log("KNOWN-FINDING: property=%s %s (%s; %d case(s))" % (pid, k["what"], kid, n))
     for c, failed, rc in violations[:20]:
@@ -128,10 +133,10 @@ def run_sem(pid, tier, seed, replay, gen_fn=None, extra_cov=None, t_start=None):
         cov["states"] += add[0] + ma.get("states", 0)
         cov["transitions"] += add[1] + ma.get("transitions", 0)
         cov.update(extra_cov)
-    common.write_evidence(pid, tier, seed, "model_checking", cov, time.time() - t0, len(violations), ASSUME_SEM)
+    common.write_evidence(pid, tier, seed, "model_checking", cov, time.time() - t0, len(violations) + len(pre), ASSUME_SEM)
     log("%s %s: %d cases, %d calls, %d judgements (%d n/a), %d violation(s), %d known; %.1fs" % (
-        pid, tier, len(cases), cov["evaluations"], judged_n, na, len(violations), sum(n for _, n in known_hits.values()), time.time() - t0))
-    return 1 if violations else 0
+        pid, tier, len(cases), cov["evaluations"], judged_n, na, len(violations) + len(pre), sum(n for _, n in known_hits.values()), time.time() - t0))
+    return 1 if (violations or pre) else 0
 
 
 MODEL_A_QUICK = {"C04", "C12"}                     # properties whose quick tier also runs MC_Evaluator
@@ -140,10 +145,46 @@ STEP_TRACES = {"C04", "C12"}                       # properties whose checks als
 PRIMITIVES = {"C03"}                               # properties whose checks also replay the symbolic primitives (Trace_Rel)
 
 
+WIDE = {"C20"}                                     # properties whose checks also compare slices on networks beyond 2^53 pairs
+
+
+def run_wide_only(pid, tier, seed, jobs):
+    """replay of a violation found by the wide-slice family"""
+    import wideprops
+    t0 = time.time()
+    common.build()
+    wd = common.workdir("%s-%s-wide" % (pid, tier))
+    jobs, facts, verdicts, stats = wideprops.run_wide(tier, seed, wd, jobs=jobs)
+    bad = [f for f in facts if verdicts[f["id"]] != ["T"]]
+    for f in bad[:20]:
+        path = common.write_replay(pid, {"property": pid, "wide_jobs": [j for j in jobs if j["id"] == f["job"]], "fact": f})
+        log("VIOLATION property=%s replay=%s" % (pid, path))
+    log("%s %s (wide replay): %d facts, %d violation(s); %.1fs" % (pid, tier, len(facts), len(bad), time.time() - t0))
+    return 1 if bad else 0
+
+
 def run(pid, tier, seed, replay):
     if pid in semprops.GENERATORS:
         extra = {}
         t_start = time.time()
+        if replay and pid in WIDE:
+            doc = json.load(open(replay))
+            if "wide_jobs" in doc:
+                return run_wide_only(pid, tier, seed, doc["wide_jobs"])
+        if not replay and pid in WIDE:
+            import wideprops
+            common.build()
+            wdw = common.workdir("%s-%s-wide" % (pid, tier))
+            jobs, facts, verdicts, stats = wideprops.run_wide(tier, seed, wdw)
+            bad = [f for f in facts if verdicts[f["id"]] != ["T"]]
+            extra["_pre_violations"] = [({"property": pid, "wide_jobs": [j for j in jobs if j["id"] == f["job"]], "fact": f},
+                                         "on a network with %s the result for colour %s, restricted to that colour, differs from the result on the instantiated network (%s vs %s states): %s"
+                                         % ("2^%d+ coloured states" % 60, f["colour"], f.get("slice_states"), f.get("instantiated_states"), f["formula"][:120])) for f in bad]
+            extra["beyond_explicit"] = {"module": "spec/Trace_Slice.tla", "networks": len({j["model"] for j in jobs}), "formulae": len(jobs),
+                                        "facts": len(facts), "valid_colours_compared": sum(1 for f in facts if f["valid"]),
+                                        "note": "parametrised result restricted to a colour vs result on the instantiated network, compared as BDDs "
+                                                "(semantic equality) on networks with ~30 free constants (2^60+ coloured states)"}
+            extra["_add_states"] = (stats["distinct"], stats["states"])
         if not replay:
             import evalmodel
             wd = common.workdir("%s-%s-model" % (pid, tier))
@@ -380,6 +421,43 @@ def scoped_strings(rng, count):
     return out
 
 
+def twin_strings(rng, count):
+    """ONE sub-formula text occurring twice (or three times) at the SAME quantifier depth under DIFFERENT stacks of
+    binders: the same names in permuted order, a binder replaced by another name (so that the twin has a free
+    variable and the formula must be rejected), different quantifier kinds, optional domains."""
+    import copy
+    out = []
+    names = ["a1", "b1", "x", "xx", "y", "s"]
+    for i in range(count):
+        k = rng.choice([1, 2, 2, 3])
+        vs = rng.sample(names, k)
+        bg = gen.FormulaGen(rng, ["a", "b"], p_quant=0.0, quant=[], p_jump=0.25, unary=["not", "EX", "AX", "EF", "AG"], binary=["and", "or", "EU"])
+        body = None
+        for _ in range(10):
+            body = bg.gen(rng.randint(1, 4), scope=list(vs))
+            if gen.free_vars(body):
+                break
+        parts = []
+        for occ in range(rng.choice([2, 2, 3])):
+            order = list(vs)
+            x = rng.random()
+            if x < 0.55:
+                rng.shuffle(order)                      # permuted binders
+            elif x < 0.75 and occ > 0:
+                order[rng.randrange(k)] = rng.choice([n for n in names if n not in vs])   # the twin has a free variable
+            f = copy.deepcopy(body)
+            for v in order:
+                f = H(rng.choice(["exists", "bind", "forall"]), v, f, "")
+            parts.append(f)
+        f = parts[0]
+        for p_ in parts[1:]:
+            f = B(rng.choice(["and", "or", "imp", "EU"]), f, p_)
+        if rng.random() < 0.3:
+            f = H(rng.choice(["exists", "bind"]), "w", B("and", f, V("w")), "")
+        out.append(gen.render(f))
+    return out
+
+
 def run_c07(tier, seed, replay):
     rng = random.Random(seed * 7919 + 7)
     if replay:
@@ -396,6 +474,8 @@ def run_c07(tier, seed, replay):
                 n += 1
         for i, s in enumerate(scoped_strings(rng, 8000 if tier == "thorough" else 1500)):
             items.append({"id": "r%d" % i, "kind": "prep", "kinds": ["c07"], "text": s})
+        for i, s in enumerate(twin_strings(rng, 3000 if tier == "thorough" else 600)):
+            items.append({"id": "t%d" % i, "kind": "prep", "kinds": ["c07"], "text": s})
     extra = None
     if not replay:
         g, d = common.mode_a("MC_Scope.tla", "MC_Scope.cfg", common.workdir("C07-%s-model" % tier), env={"SCOPE_N": "4" if tier == "thorough" else "3"})
